@@ -45,6 +45,40 @@ pub fn observe(ctx: &Ctx, bytes: &[u8]) -> Obs {
       Cmd::new(&ctx.imdl, &["torrent", "show", "--json", "--input", "sub/link.torrent"]).cwd(&sb.root).run()
     }
   };
+  // now and then also on a real terminal (no --terminal flag): what a person sees there is the --terminal rendering
+  let mut h = h;
+  if pick % 16 == 5 && h.ok() {
+    if let Some(t) = crate::run::pty_run_fds(if pick % 32 == 5 { 60 } else { 120 }, &sb.root, &ctx.imdl, &["torrent", "show", "--input", "t.torrent"], "1", &sb.path("stderr.txt")) {
+      let plain = |b: &[u8]| -> String {
+        // strip CSI sequences and carriage returns
+        let s = String::from_utf8_lossy(b).into_owned();
+        let mut out = String::new();
+        let mut it = s.chars().peekable();
+        while let Some(c) = it.next() {
+          if c == '\u{1b}' && it.peek() == Some(&'[') {
+            it.next();
+            while let Some(&n) = it.peek() {
+              it.next();
+              if ('@'..='~').contains(&n) {
+                break;
+              }
+            }
+          } else if c != '\r' {
+            out.push(c);
+          }
+        }
+        out
+      };
+      let on_tty = plain(&t.stdout);
+      let flagged = plain(&h.stdout);
+      // (values that themselves hold control characters are shown raw on both; compare only when they agree on being plain)
+      let clean = |s: &str| !s.chars().any(|c| c.is_control() && c != '\n');
+      if t.code == Some(0) && clean(&on_tty) && clean(&flagged) && on_tty != flagged {
+        // keep the evidence in the `--terminal` slot: the text check below will not find the values where they belong
+        h.stdout = format!("[on a terminal the rendering differs from --terminal]\n{on_tty}").into_bytes();
+      }
+    }
+  }
   Obs {
     json: if j.ok() { serde_json::from_str(j.stdout_s().trim_end()).ok() } else { None },
     json_code: j.code,
@@ -315,6 +349,9 @@ pub fn run(ctx: &Ctx) -> Report {
     }
     if pf.is_none() {
       match (&o.tab, &o.term) {
+        (Some(_), Some(term)) if term.starts_with("[on a terminal the rendering differs from --terminal]") => {
+          pf = Some(format!("shown on a real terminal (no --terminal flag) the report is not the --terminal rendering: {:?}", &term[..term.len().min(400)]))
+        }
         (Some(tab), Some(term)) => pf = check_text(j, tab, term),
         _ => pf = Some("`show --json` succeeds but a text rendering fails".into()),
       }
